@@ -113,11 +113,15 @@ def corner_params(name, rng):
             par["t"] = logu(rng, 0.1, 0.3)
         elif r < 0.5:
             par["t"] = rng.choice([0.1, 1.0, 4.0])
+        elif r < 0.7:
+            par["t"] = logu(rng, 2.5, 4.0)          # steep: the plateau is reached to the last bit of the loading well inside the queried range
     elif name == "JensenSeaton":
         if r < 0.4:
             par["c"] = logu(rng, 0.1, 0.3)
         elif r < 0.5:
             par["c"] = rng.choice([0.1, 1.0, 4.0])
+        elif r < 0.7:
+            par["c"] = logu(rng, 2.5, 4.0)
     else:
         # a = RT/e in [A_LOW, 3] (e has no upper bound in the models: N2 at 77 K with e = 22 kJ/mol is a = 0.029).  Finding S49-C11a (repaired by a
         # fix: commit, see known_findings.json): DR/DA.spreading_pressure used scipy quad on n(p)/p from 0 — a p^(a-1)-like integrand at default
@@ -384,7 +388,8 @@ def run(ck):
                 qs = [1e-300, 1e-30, 10 ** rng.uniform(-14, -7), 10 ** rng.uniform(-7, -3), 1e-2, rng.uniform(1e-4, 1), rng.choice([0.5, 1.0])]
             else:
                 sc = 1.0 / (par["K"] if name == "Toth" else par["K"] / par["a"])      # pressure at which the loading leaves Henry's law
-                qs = [sc * x for x in (1e-200, 1e-30, 10 ** rng.uniform(-14, -7), 10 ** rng.uniform(-7, -3), logu(rng, 1e-2, 1e1), logu(rng, 1e1, 1e4))]
+                qs = [sc * x for x in (1e-200, 1e-30, 10 ** rng.uniform(-14, -7), 10 ** rng.uniform(-7, -3), logu(rng, 1e-2, 1e1), logu(rng, 1e1, 1e4),
+                                       logu(rng, 1e3, 1e4))]          # (the last one: far on the plateau, where 1 - n/n_m is below the spacing of the doubles for steep exponents)
             qs = sorted(set(qs))
             a_ = R_GAS * temp / par["e"] if name in REL_ONLY else None
             tail = da_tail(par["n_m"], a_, par.get("m", 2.0)) if name in REL_ONLY else None
@@ -917,6 +922,181 @@ def run(ck):
                 fail_u("unit arguments converted first", br, kind, {**detail, "got": got, "permanently_converted_copy_asked_natively": nat})
     ck.cov["point_result_units"] = {"cases": len(ctx3), "correspondence_disagreements": n_dis3, "fraction_x_material_change_argument_sets": n_s5, "of_them_attributed_to_S49-C11c_by_the_control_experiment": n_mixed,
                                     "worst_relative_deviation": {k: float(f"{v:.3g}") for k, v in worst_u.items()}}
+
+    # ------------------------------------------------------------------ 3d. point isotherms: the STORAGE TYPE of the data columns
+    # "point isotherms with any increasing data": whole-number data arrive as Python ints, integer numpy arrays of any width, integer DataFrame columns
+    # (what pandas makes of a file without a decimal point), pandas' nullable Int64 or object columns — the isotherm keeps that dtype as long as no
+    # loading / material conversion is asked for.  The value of Π depends on the NUMBERS, not on how they are stored: every clause (integral of the
+    # interpolant — exact-rational reference and the fold of Model/SpreadPoint.lean —, increments between min and max loading times d ln p, hence
+    # increasing and additive, p dΠ/dp = n inside the segments) is checked on integer-typed pressure and / or loading columns, WITHOUT loading / material
+    # arguments (with and without a pressure unit), on both branches, and against the twin isotherm holding the same numbers as float64.
+    # The data of the caller and the stored columns (values and dtypes) are the same after the queries.
+    # TODO (candidate defects of the unchanged tree, kept out of the generator, reported): (1) UNSIGNED integer loading columns with a loading that goes
+    # down between two rows: `loadings[i + 1] - loadings[i]` wraps around in spreading_pressure_at (uint8 [3, 5, 4, 8, 9, 10]: Π off by a factor 5);
+    # unsigned columns are generated with non-decreasing loadings only.  (2) float32 / float16 columns: the fold runs in that precision (5.7e-8 / 3e-4
+    # relative on exactly representable data); not generated.
+    INT_KINDS = ["python-int list", "int64", "int32", "int16", "int8", "uint8", "uint16", "uint32", "uint64", "Int64 (pandas nullable)", "object"]
+    reqs4, ctx4 = [], []
+    for i in range(ck.n(36, 200)):
+        kind = rng.choice(INT_KINDS)
+        cols = rng.choice(["both", "both", "loading", "pressure"])          # which columns hold integers
+        how = rng.choice(["arguments", "DataFrame", "Series"])
+        unsigned = kind.startswith("uint")
+        bd = {}
+        for br in ("ads", "des") if rng.random() < 0.4 else ("ads",):
+            n = rng.randint(2, 9)
+            if cols in ("both", "pressure"):
+                ps = [int(v) for v in np.cumsum([rng.randint(1, 4) for _ in range(n)])]
+            else:
+                ps = sorted({round(math.exp(rng.uniform(-3, 2)), rng.randint(2, 5)) for _ in range(n)})
+                ps = [p for p in ps if p > 0]
+            if len(ps) < 2:
+                continue
+            if cols in ("both", "loading"):
+                if unsigned or rng.random() < 0.6:
+                    ls = [int(v) for v in np.cumsum([rng.randint(0 if t else 1, 9) for t in range(len(ps))])]          # non-decreasing, positive
+                else:
+                    ls = [rng.randint(1, 30)] + [rng.randint(0, 30) for _ in ps[1:]]                                   # any non-negative whole numbers
+            else:
+                ls = [float(v) for v in np.cumsum([rng.uniform(0.05, 2) for _ in ps])]
+            bd[br] = (ps, ls)
+        if "ads" not in bd:
+            continue
+        st_p = [x for br in bd for x in (bd[br][0][::-1] if br == "des" else bd[br][0])]
+        st_l = [x for br in bd for x in (bd[br][1][::-1] if br == "des" else bd[br][1])]
+        marks = [0 if br == "ads" else 1 for br in bd for _ in bd[br][0]]
+
+        def column(vals, integer):
+            if not integer:
+                return [float(v) for v in vals] if how == "arguments" else np.array(vals, dtype=float)
+            if kind == "python-int list":
+                return list(vals) if how == "arguments" else pd.Series(list(vals))
+            if kind.startswith("Int64"):
+                return pd.array(list(vals), dtype="Int64")
+            if kind == "object":
+                return np.array(list(vals), dtype=object)
+            return np.array(vals, dtype=kind)
+        cp, cl = column(st_p, cols in ("both", "pressure")), column(st_l, cols in ("both", "loading"))
+        meta = dict(material="pgv_m", adsorbate="N2", temperature=77.355, temperature_unit="K", pressure_mode="absolute", pressure_unit="bar",
+                    loading_basis="molar", loading_unit="mmol", material_basis="mass", material_unit="g")
+        caller = None
+        base4 = {"stored_as": kind, "integer_columns": cols, "constructed_from": how, "stored_pressures": st_p, "stored_loadings": st_l, "branch_marks": marks}
+        try:
+            if how == "DataFrame":
+                idx_lab = list(range(len(st_p))) if rng.random() < 0.6 else [3 * t + 1 for t in range(len(st_p))]
+                caller = pd.DataFrame({"pressure": cp, "loading": cl})
+                caller.index = idx_lab          # (row labels set afterwards: the DataFrame constructor would ALIGN a Series column on them)
+                before = caller.copy(deep=True)
+                iso = pg.PointIsotherm(isotherm_data=caller, pressure_key="pressure", loading_key="loading", branch=marks, **meta)
+            elif how == "Series":
+                caller = pd.DataFrame({"pressure": cp, "loading": cl})
+                before = caller.copy(deep=True)
+                iso = pg.PointIsotherm(pressure=caller["pressure"], loading=caller["loading"], branch=marks, **meta)
+            else:
+                iso = pg.PointIsotherm(pressure=cp, loading=cl, branch=marks, **meta)
+            twin = pg.PointIsotherm(pressure=[float(x) for x in st_p], loading=[float(x) for x in st_l], branch=marks, **meta)
+            stored_before = iso.data_raw.copy(deep=True)
+        except Exception as e:  # noqa
+            ck.fail_case({"class": "PointIsotherm", "clause": "integral of the interpolant", "data": "integer-typed columns", "outcome": err_class(e)}, {**base4, "error": repr(e)})
+            continue
+        for br in bd:
+            ps, ls = [float(x) for x in bd[br][0]], [float(x) for x in bd[br][1]]
+            qs = [ps[0] * rng.uniform(0.05, 0.95), ps[0], ps[-1]] + [(a + b) / 2 for a, b in zip(ps, ps[1:])] + [rng.uniform(ps[0], ps[-1]) for _ in range(3)]
+            qs += [rng.choice(ps), float(np.nextafter(rng.choice(ps), 0.0))]
+            for q in sorted({q for q in qs if 0 < q <= ps[-1]}):
+                req, k = fold_request(ps, ls, q)
+                reqs4.append(req)
+                ctx4.append((iso, twin, br, ps, ls, q, k, base4, stored_before, (caller, before) if caller is not None else None))
+    try:
+        reps4 = ck.drive("SpreadPoint", reqs4)
+    except Exception as e:
+        reps4 = None
+        ck.broken.append({"step": "driver SpreadPoint (integer-typed columns)", "what": str(e)[:500]})
+    nfail4, n_dis4, last, worst4 = {}, 0, None, {"reference": 0.0, "float twin": 0.0, "p dPi/dp - n": 0.0}
+
+    def fail_i(clause, detail):
+        key = (clause, detail["branch"], detail["stored_as"], detail["integer_columns"])
+        nfail4[key] = nfail4.get(key, 0) + 1
+        if nfail4[key] <= 2 and sum(1 for kk in nfail4 if kk[0] == clause) <= 6:
+            ck.fail_case({"class": "PointIsotherm", "clause": clause, "branch": detail["branch"], "data": "integer-typed columns", "integer_columns": detail["integer_columns"]}, detail)
+
+    def pi_of(iso_, q_, kw_):
+        try:
+            return float(iso_.spreading_pressure_at(q_, **kw_))
+        except Exception as e:  # noqa
+            return ("err", err_class(e), repr(e)[:200])
+
+    for idx, (iso, twin, br, ps, ls, q, k, base4, stored_before, cal) in enumerate(ctx4):
+        bkw = {"branch": br} if br != "ads" or idx % 2 else {}
+        pkw = {}
+        q_arg = q
+        if idx % 5 == 3 and q < ps[-1] * (1 - 1e-9):          # (the last data point in a foreign unit is the input class of S49-C11b: sections 3b / 3c cover it)
+            pkw, q_arg = {"pressure_unit": "kPa"}, q * 100          # a pressure unit alone leaves the loading column as stored
+        detail = {**base4, "branch": br, "branch_pressures_increasing": ps, "branch_loadings": ls, "query": q_arg, "keyword_arguments": {**bkw, **pkw}}
+        got = pi_of(iso, q_arg, {**bkw, **pkw})
+        ref = exact_ref(ps, ls, q)
+        floor = cond_floor(ps, ls, q) + (4e-16 * abs(ref) if pkw else 0.0)
+        ck.count(("point-int", base4["stored_as"], base4["integer_columns"], br, tuple(ps), tuple(ls), q), bucket=f"point-integer-columns:{base4['integer_columns']}:{br}:k={min(k, 3)}",
+                 sample={**detail, "implementation": got, "reference": ref} if idx % 199 == 0 else None)
+        if isinstance(got, tuple) or not abs(got - ref) <= 1e-9 * abs(ref) + floor:
+            fail_i("integral of the interpolant", {**detail, "got": got, "reference": ref, "rounding_floor_of_the_formula": floor})
+            last = None
+            continue
+        worst4["reference"] = max(worst4["reference"], abs(got - ref) / max(abs(ref), 1e-300))
+        if reps4 is not None:
+            r = reps4[idx].split()
+            if not (r[0] == "ok" and (close(got, Fr(r[1]), rel=1e-10) or abs(got - float(Fr(r[1]))) <= floor)):
+                n_dis4 += 1
+                if n_dis4 <= 3:
+                    ck.broken.append({"step": "correspondence Model/SpreadPoint.lean (integer-typed columns)", "what": {"request": reqs4[idx][:300], "model": reps4[idx][:80], "implementation": got, "case": detail}})
+        # the same numbers stored as float64
+        tw = pi_of(twin, q_arg, {**bkw, **pkw})
+        if isinstance(tw, tuple) or not abs(tw - got) <= 1e-12 * abs(got) + floor:
+            fail_i("same value for the same numbers stored as float64", {**detail, "got": got, "float64_twin": tw})
+        else:
+            worst4["float twin"] = max(worst4["float twin"], abs(tw - got) / max(abs(got), 1e-300))
+        # increments (increasing, additive): Π(b) - Π(a) between min and max loading on [a, b] times ln(b / a)
+        if last is not None and last[0] is iso and last[1] == br and q > last[2]:
+            a, pa = last[2], last[3]
+            fp, fl = [frac(x) for x in ps], [frac(x) for x in ls]
+            vals = [interp_exact(fp, fl, frac(a)), interp_exact(fp, fl, frac(q))] + [fl[j] for j in range(len(ps)) if a < ps[j] < q]
+            lnr = math.log1p((q - a) / a)
+            lo_b, hi_b = float(min(vals)) * lnr, float(max(vals)) * lnr
+            slack = 1e-6 * hi_b + 1e-12 * abs(got) + 2 * floor
+            if not (lo_b - slack <= got - pa <= hi_b + slack):
+                fail_i("increment between min and max loading times d ln p", {**detail, "previous_query": a, "previous_value": pa, "got": got, "increment": got - pa, "bounds": [lo_b, hi_b]})
+        last = (iso, br, q, got)
+        # p dΠ/dp = n inside a segment (central difference that stays inside the segment; Π is smooth there)
+        if 0 < k < len(ps) and ps[k - 1] < q < ps[k] and not pkw:
+            h = 0.25 * min(q - ps[k - 1], ps[k] - q, 1e-3 * q)
+            if h > 1e-7 * q:
+                up, dn = pi_of(iso, q + h, bkw), pi_of(iso, q - h, bkw)
+                try:
+                    n_q = float(iso.loading_at(q, **bkw))
+                except Exception as e:  # noqa
+                    n_q = ("err", err_class(e))
+                n_ref = float(interp_exact([frac(x) for x in ps], [frac(x) for x in ls], frac(q)))
+                if isinstance(up, tuple) or isinstance(dn, tuple) or isinstance(n_q, tuple):
+                    fail_i("p dPi/dp = loading", {**detail, "h": h, "Pi(q+h)": up, "Pi(q-h)": dn, "loading_at": n_q})
+                else:
+                    der = q * (up - dn) / (2 * h)
+                    tol_d = 1e-5 * max(abs(n_ref), max(ls)) + q * (4 * floor + 4 * 2.3e-16 * abs(got)) / h
+                    worst4["p dPi/dp - n"] = max(worst4["p dPi/dp - n"], abs(der - n_ref) / tol_d)
+                    if not abs(der - n_ref) <= tol_d or not abs(n_q - n_ref) <= 1e-9 * abs(n_ref) + 1e-12:
+                        fail_i("p dPi/dp = loading", {**detail, "h": h, "Pi(q+h)": up, "Pi(q-h)": dn, "p_times_difference_quotient": der, "loading_at": n_q,
+                                                      "interpolant_at_query": n_ref, "tolerance": tol_d})
+        # the stored columns and the caller's table: same values, same dtypes after the queries
+        if idx + 1 == len(ctx4) or ctx4[idx + 1][0] is not iso:
+            try:
+                same = iso.data_raw.equals(stored_before) and list(iso.data_raw.dtypes) == list(stored_before.dtypes)
+                if cal is not None:
+                    same = same and cal[0].equals(cal[1]) and list(cal[0].dtypes) == list(cal[1].dtypes) and list(cal[0].index) == list(cal[1].index)
+            except Exception as e:  # noqa
+                same = repr(e)
+            if same is not True:
+                fail_i("data unchanged by the query", {**detail, "stored_columns_before": stored_before.to_dict("list"), "stored_columns_after": iso.data_raw.to_dict("list"),
+                                                       "dtypes_after": [str(t) for t in iso.data_raw.dtypes], "comparison": same})
+    ck.cov["point_integer_columns"] = {"cases": len(ctx4), "correspondence_disagreements": n_dis4, "worst": {k: float(f"{v:.3g}") for k, v in worst4.items()}}
 
     # ------------------------------------------------------------------ 4. model isotherm: foreign units / modes converted first
     for name in ("Langmuir", "Toth"):
